@@ -397,12 +397,20 @@ func (r *nRun) exec(e nEvent) {
 	case 'C':
 		c.store.DeleteExpired()
 	case 'X':
-		c.Close()
+		nCloseCore(c)
 		r.core = nil
 		if err := r.open(); err != nil {
 			panic("verif: reopen failed: " + err.Error())
 		}
 	}
+}
+
+// nCloseCore: Core.Close() plus the AgentManager, which Core.Close() leaves running — its goroutine keeps
+// the whole Core (and the closed badger store with its memory tables) reachable; thousands of Core
+// life-cycles in one process would otherwise add up to tens of gigabytes.
+func nCloseCore(c *Core) {
+	c.Close()
+	_ = c.agentManager.Close()
 }
 
 func nEidList(es []bpv7.EndpointID) string {
@@ -608,7 +616,7 @@ func nRunHist(h *nHist, dir string) (line string) {
 		if r.core != nil {
 			func() {
 				defer func() { _ = recover() }()
-				r.core.Close()
+				nCloseCore(r.core)
 			}()
 		}
 	}()
